@@ -146,8 +146,10 @@ class DirectoryResourcePopulator:
                     f"Trying to gather resources from {full_dir_path}, but "
                     "it's not a directory")
 
-            for full_file_path in glob.iglob(pt.join(full_dir_path, '**'),
-                                             recursive=True):
+            # The directory is taken literally, it is not a pattern
+            for full_file_path in glob.iglob(
+                    pt.join(glob.escape(full_dir_path), '**'),
+                    recursive=True):
                 # Filter rule extensions
                 # Empty container means all extensions. Explicitly use
                 # len to check it as the container type is unsure
